@@ -89,6 +89,14 @@ pub fn campaigns(ctx: &Ctx) -> Stats {
         let cfg2 = cfg.clone();
         st.merge(ctx.run_prop("wide-programs", total / 8, move || recipe_strategy(8), move |r| Some(HistCase { oracle: "c01".into(), hist: elaborate(&cfg2, r) })));
     }
+    // dimensions around block lengths (16..130) and leaves / seeds of very different magnitudes
+    for (name, p) in [("programs-with-large-dimensions", Profile::LargeDims), ("programs-with-wide-magnitudes", Profile::WideMagnitudes)] {
+        let mut cfg = GenCfg::programs(false);
+        cfg.kinds.push((Kind::Backward, 5));
+        cfg.max_steps = t.pick(14, 30);
+        let cfg = cfg.with_profile(p, t == Tier::Thorough, crate::exec::IS_F32);
+        st.merge(ctx.run_prop(name, profile_total(t, p), move || recipe_strategy(12), move |r| Some(HistCase { oracle: "c01".into(), hist: elaborate(&cfg, r) })));
+    }
     let depths: Vec<usize> = t.pick(vec![1, 2, 3, 5, 8, 13, 21, 34, 64], vec![1, 2, 3, 5, 8, 13, 21, 34, 64, 128, 256]);
     let nd = depths.len() as u64;
     st.merge(ctx.run_indexed("deep-chains", nd * 4 * 3, None, |i| {
